@@ -391,6 +391,9 @@ class Exec:
         self.abs_cont = {v: k for k, v in self.conts.items()}
         self.w = World('dict', demo=False,
                        users={u: p for u, p in USERS.values()})
+        if rng.random() < 0.5:
+            # every second execution: what is sent arrives in several segments
+            self.w.segment_rng = random.Random(rng.randrange(1 << 30))
         self.log: list = []        # (conn, sent, received)
         self.nsteps = 0
         self._literals: list = []
